@@ -1,0 +1,141 @@
+//! Verification hooks (cargo feature `verif_hooks`, off by default).
+//!
+//! Nothing in here changes what an honest run computes. The module offers
+//! - read-only re-exports / accessors of crate-private items that external runtime monitors need
+//!   (constraint evaluators, selector layout, Merkle path compression), and
+//! - adversary knobs for the prover (all default to "honest"), so that a monitor can make the
+//!   real prover ignore its own consistency checks and hand the result to the verifier.
+
+use core::ops::Range;
+use std::sync::{RwLock, RwLockReadGuard};
+
+use crate::field::extension::Extendable;
+use crate::field::types::Field;
+use crate::gates::selectors::SelectorsInfo;
+use crate::hash::hash_types::RichField;
+use crate::hash::merkle_proofs::MerkleProof;
+use crate::iop::witness::MatrixWitness;
+use crate::plonk::circuit_data::CommonCircuitData;
+use crate::plonk::config::Hasher;
+pub use crate::plonk::vanishing_poly::{
+    check_lookup_constraints, evaluate_gate_constraints, evaluate_gate_constraints_base_batch,
+};
+use crate::plonk::vars::EvaluationVars;
+
+/// See `hash::path_compression::compress_merkle_proofs`.
+pub fn compress_merkle_proofs<F: RichField, H: Hasher<F>>(
+    cap_height: usize,
+    indices: &[usize],
+    proofs: &[MerkleProof<F, H>],
+) -> Vec<MerkleProof<F, H>> {
+    crate::hash::path_compression::compress_merkle_proofs(cap_height, indices, proofs)
+}
+
+/// See `hash::path_compression::decompress_merkle_proofs`.
+pub fn decompress_merkle_proofs<F: RichField, H: Hasher<F>>(
+    leaves_data: &[Vec<F>],
+    leaves_indices: &[usize],
+    compressed_proofs: &[MerkleProof<F, H>],
+    height: usize,
+    cap_height: usize,
+) -> Vec<MerkleProof<F, H>> {
+    crate::hash::path_compression::decompress_merkle_proofs(
+        leaves_data,
+        leaves_indices,
+        compressed_proofs,
+        height,
+        cap_height,
+    )
+}
+
+/// See `plonk::vanishing_poly::eval_vanishing_poly`.
+pub fn eval_vanishing_poly<F: RichField + Extendable<D>, const D: usize>(
+    common_data: &CommonCircuitData<F, D>,
+    x: F::Extension,
+    vars: EvaluationVars<F, D>,
+    local_zs: &[F::Extension],
+    next_zs: &[F::Extension],
+    local_lookup_zs: &[F::Extension],
+    next_lookup_zs: &[F::Extension],
+    partial_products: &[F::Extension],
+    s_sigmas: &[F::Extension],
+    betas: &[F],
+    gammas: &[F],
+    alphas: &[F],
+    deltas: &[F],
+) -> Vec<F::Extension> {
+    crate::plonk::vanishing_poly::eval_vanishing_poly(
+        common_data,
+        x,
+        vars,
+        local_zs,
+        next_zs,
+        local_lookup_zs,
+        next_lookup_zs,
+        partial_products,
+        s_sigmas,
+        betas,
+        gammas,
+        alphas,
+        deltas,
+    )
+}
+
+/// Gate index -> selector polynomial index.
+pub fn selector_indices(info: &SelectorsInfo) -> &[usize] {
+    &info.selector_indices
+}
+
+/// Selector polynomial index -> range of gate indices it serves.
+pub fn selector_groups(info: &SelectorsInfo) -> &[Range<usize>] {
+    &info.groups
+}
+
+/// Builds a `MatrixWitness` from column-major wire values (`wire_values[column][row]`).
+pub fn matrix_witness_from_columns<F: Field>(wire_values: Vec<Vec<F>>) -> MatrixWitness<F> {
+    MatrixWitness { wire_values }
+}
+
+/// Column-major wire values of a `MatrixWitness`.
+pub fn matrix_witness_columns<F: Field>(w: &MatrixWitness<F>) -> &Vec<Vec<F>> {
+    &w.wire_values
+}
+
+/// Adversary knobs read by the prover. `Default` is the honest prover.
+#[derive(Clone, Debug, Default)]
+pub struct ProverKnobs {
+    /// `(row, column, canonical value)` edits applied to the full wire matrix right after it has
+    /// been computed (i.e. after generators, lookup multiplicities and padding).
+    pub witness_edits: Vec<(usize, usize, u64)>,
+    /// Start the permutation accumulator `Z` from this value instead of one.
+    pub z_init: Option<u64>,
+    /// `(quotient polynomial index, coefficient index, canonical value to add)`, applied after
+    /// the quotient polynomials have been computed.
+    pub quotient_edits: Vec<(usize, usize, u64)>,
+    /// Cut the quotient polynomials to the committed length instead of insisting that the
+    /// discarded coefficients are zero.
+    pub lenient_truncation: bool,
+    /// Use this proof-of-work witness instead of grinding.
+    pub force_pow_witness: Option<u64>,
+}
+
+static KNOBS: RwLock<Option<ProverKnobs>> = RwLock::new(None);
+
+/// Installs `knobs` process-wide (pass `ProverKnobs::default()` to go back to honest).
+pub fn set_knobs(knobs: ProverKnobs) {
+    *KNOBS.write().unwrap_or_else(|e| e.into_inner()) = Some(knobs);
+}
+
+pub(crate) fn with_knobs<R>(f: impl FnOnce(&ProverKnobs) -> R) -> Option<R> {
+    let guard: RwLockReadGuard<Option<ProverKnobs>> =
+        KNOBS.read().unwrap_or_else(|e| e.into_inner());
+    guard.as_ref().map(f)
+}
+
+pub(crate) fn apply_witness_edits<F: Field>(w: &mut MatrixWitness<F>) {
+    with_knobs(|k| {
+        for &(row, col, v) in &k.witness_edits {
+            w.wire_values[col][row] = F::from_canonical_u64(v);
+        }
+    });
+}
